@@ -102,6 +102,22 @@ def make_configs(r, n):
             meta['cc_spec'] = cc
             meta['compare']['cmd_cc'] = True
             meta['same_basename'] = (i % 14 == 3)
+    # the final file is written by the OUTPUT renderer, which is not the one
+    # the candidates were checked with: long quoted tokens that the command
+    # depends on, under every output mode
+    long_s = '"' + ' '.join(['lorem ipsum dolor sit amet'] * 5) + '"'
+    long_q = '|' + ' '.join(['consectetur adipiscing elit'] * 5) + '|'
+    text = ('(set-logic QF_LIA)\n(set-info :source ' + long_q + ')\n'
+            '(declare-const x Int)\n(assert (> x 0))\n(echo ' + long_s +
+            ')\n(assert (< x 5))\n(check-sat)\n')
+    for k, om in enumerate(((), ('--pretty-print', ), ('--wrap-lines', ),
+                            ('--pretty-print', '--wrap-lines'))):
+        st = ('ddmin', 'hierarchical', 'hybrid', 'hybrid')[k]
+        cfgs.append((text, {'mode': 'contains',
+                            'markers': [long_s, long_q, 'check-sat']},
+                     ['--strategy', st, '-j', '2'] + list(om),
+                     {'strategy': st, 'jobs': 2, 'outmode': list(om),
+                      'n': f'Q{k}', 'compare': {}}))
     return cfgs
 
 
